@@ -159,6 +159,8 @@ def main():
         fl, variant = "tsanhook", fl.split("_", 1)[1]
     if fl.startswith("cthook_"):
         fl, variant = "cthook", fl.split("_", 1)[1]
+    if fl == "plain_clang":       # the repository's flags, compiled by the other compiler (no sanitizer)
+        fl, variant = "plain", "clang"
     cc = a.cc or ("clang" if fl == "asan" or variant == "clang" else "gcc")
     lines = repo_compile_lines(a.repo, a.makevar)
     extra = []
